@@ -14,6 +14,7 @@ import RapidProofs.TranslatedEq
 import RapidProofs.TranslatedDataEq
 import RapidProofs.TranslatedRecEq
 import RapidProofs.TranslatedFindEq
+import RapidProofs.TranslatedRepeatEq
 
 namespace Rapid.C04
 
@@ -143,6 +144,22 @@ theorem source_recording_of_run (p : Prog) (src : Src) (ts : TS)
 theorem source_generator_value (fe : Go.FEval) (W : Prog) (str : Option String) (fuel : Nat) (k : Val → Prog) :
     RunEq (Translated.Generator_value fe (fun k' => W >>- k') str fuel k) ((wrapValue (str.getD "") W) >>- k) :=
   tr_generator_value fe W str fuel k
+
+/-- what the *source's* `repeat.more` / `repeat.reject` (translated on every run) record is what the model's loop records:
+    the same groups with the same `discard` flags around the same words — the zero-bit coin of a forced stop included —, so
+    that pruning the recording removes the same rejected attempts and the replay of the pruned words reads the same words
+    (`repeat_loop_replays_pruned` above is about these tokens) -/
+theorem source_repeat_records (fe : Go.FEval) (ft : FT) (HB : FloatFactsBits fe ft) (c : RCfg) (pc : UInt64)
+    (hcp : Go.CoinOK fe (.ofBits pc) c.thr) (hmin : c.minC < 2 ^ 62) (hmax : c.maxC < 2 ^ 63) (step : Val → Prog)
+    (hshape : StepShape step) (cf fuel : Nat) (hfuel : fuel < 2 ^ 59) (acc : Val) (src : Src) (ts : TS)
+    (hdl : ((repeatLoop c step (fun a => .ret a) fuel {} acc).run src ts).res ≠ .error .fuel) :
+    (Go.StM.run (Go.repeatWhile fe step cf fuel (Go.RS.fresh c pc) acc) (Go.StState.fresh src ts)).core.toks =
+      ((repeatLoop c step (fun a => .ret a) fuel {} acc).run src ts).toks ∧
+    (Go.StM.run (Go.repeatWhile fe step cf fuel (Go.RS.fresh c pc) acc) (Go.StState.fresh src ts)).core.src =
+      ((repeatLoop c step (fun a => .ret a) fuel {} acc).run src ts).src := by
+  rcases Go.tr_repeat fe ft HB c pc hcp hmin hmax step hshape cf fuel hfuel acc src ts with h | h
+  · exact absurd h hdl
+  · rw [h]; exact ⟨rfl, rfl⟩
 
 /-- a recording made from the PRNG replays from a buffer (the PRNG never overruns) -/
 theorem words_are_masked (s s' : Src) (n : Nat) (u : UInt64) (h : s.next n = some (u, s')) : mask n u = u :=
